@@ -215,15 +215,21 @@ theorem refund_exact_call (s : State) (c : Call) (a : Addr) (t : Token) :
   have hr : callCleanupRefunds = true := by decide
   simp [refundCall, hr, getBal_creditAll]
 
-/-- `increase_fee_exact`: a successful fee increase costs the payer exactly the added fee, raises the fee of exactly
-that transfer by exactly that amount, leaves every other field, transfer, balance and the settlement log unchanged -/
-theorem increase_fee_exact (s s' : State) (id : Nat) (who : Addr) (t : Token) (add n : Nat)
-    (h : doIncFee s id who t add = (s', .ok n)) :
+/-- `increase_fee_exact`: a successful fee increase — by `MsgIncreaseBridgeFee` (`evm = false`) or through the
+`increaseBridgeFee` precompile with the token's ERC-20 contract (`evm = true`, round 4) — costs the payer exactly the added
+fee, raises the fee of exactly that transfer by exactly that amount, leaves every other field, transfer, balance and the
+settlement log unchanged; through the precompile the added fee comes out of the caller's ERC-20 balance (which must cover
+it), otherwise no ERC-20 balance moves; the origin relation of the transfer is untouched either way -/
+theorem increase_fee_exact (s s' : State) (id : Nat) (who : Addr) (t : Token) (add n : Nat) (evm : Bool)
+    (h : doIncFee s id who t add evm = (s', .ok n)) :
     ∃ tx, tx ∈ s.pool ∧ tx.id = id ∧ tx.token = t ∧
       s'.pool.Perm ({ tx with fee := tx.fee + add } :: s.pool.erase tx) ∧
       add ≤ getBal s.bal (who, t) ∧
       (∀ k, getBal s'.bal k = if k = (who, t) then getBal s.bal k - add else getBal s.bal k) ∧
-      s'.settled = s.settled ∧ s'.batches = s.batches := by
+      s'.settled = s.settled ∧ s'.batches = s.batches ∧
+      (evm = true → add ≤ getBal s.erc (who, t)) ∧
+      (∀ k, getBal s'.erc k = if k = (who, t) ∧ evm = true then getBal s.erc k - add else getBal s.erc k) ∧
+      s'.relTx = s.relTx := by
   have hpayer : ∀ tx : Tx, incFeePayerOf tx who = who := by
     have : incFeePayer = .msgSender := by decide
     intro tx; simp [incFeePayerOf, this]
@@ -240,10 +246,21 @@ theorem increase_fee_exact (s s' : State) (id : Nat) (who : Addr) (t : Token) (a
       · rename_i hs
         cases h
         have hid : tx.id = id := by simpa using find?_some hf
-        simp only [not_or, Decidable.not_not, Nat.not_lt, ne_eq] at hs
-        refine ⟨tx, mem_of_find?_eq_some hf, hid, hs.2.1, insertDesc_perm _ _, hs.2.2, fun k => ?_, rfl, rfl⟩
-        simp only [getBal_subBal]
-        split <;> simp_all
+        simp only [not_or, Decidable.not_not, Nat.not_lt, ne_eq, not_and] at hs
+        refine ⟨tx, mem_of_find?_eq_some hf, hid, hs.2.1, insertDesc_perm _ _, hs.2.2.1, fun k => ?_, rfl, rfl,
+          hs.2.2.2, fun k => ?_, rfl⟩
+        · simp only [getBal_subBal]
+          split <;> simp_all
+        · simp only [getBal_subBal]
+          cases evm
+          · simp only [Bool.toNat_false, Nat.zero_mul, Nat.sub_zero, Bool.false_eq_true, and_false, if_false]
+            split
+            · rename_i hk; rw [hk]
+            · rfl
+          · simp only [Bool.toNat_true, Nat.one_mul, and_true]
+            split
+            · rename_i hk; rw [hk]
+            · rfl
 
 /-- `cancel_batch_restores_pool`: cancelling batches (time-out, or superseded by an executed batch) puts exactly the
 transfers of the cancelled batches back into the pool, unchanged — multiset equality — and deletes exactly those batches -/
@@ -618,6 +635,18 @@ theorem source_shapes_settlement_order :
     resultFailureBody = ["HandleOutgoingBridgeCallRefund", "DeleteOutgoingBridgeCallRecord"] ∧
     resultSuccessBody = ["DeleteOutgoingBridgeCallRecord"] ∧
     deleteRecordBody = ["DeleteOutgoingBridgeCall", "DeleteBridgeCallConfirm", "DeleteBridgeCallFromMsg"] := by decide
+
+/-- `increase_fee_exact`, the data flow of both entry points (regenerated from the Go AST): `AddUnbatchedTxBridgeFee`
+receives the transaction id, the account that pays and the added fee from `MsgIncreaseBridgeFee` field by field, and from the
+`increaseBridgeFee` precompile: its caller (the same caller whose ERC-20 balance `handlerERC20Token` debits by `args.Fee` of
+`args.Token`, and for whom the coins are converted to the bridge denom), `args.TxID`, the converted fee -/
+theorem supplied_fields_reach_the_fee_increase :
+    (["txId", "sender", "addBridgeFee"].map (argOf incFeeAddParams incFeeMsgArgs)) =
+      [some "msg.TransactionId", some "sender", some "msg.AddBridgeFee"] ∧
+    (["txId", "sender", "addBridgeFee"].map (argOf incFeeAddParams incFeePrecompileArgs)) =
+      [some "args.TxID.Uint64()", some "sender.Bytes()", some "addBridgeFee"] ∧
+    incFeePrecompileTakeArgs = ["ctx", "evm", "sender", "args.Token", "args.Fee"] ∧
+    incFeePrecompileConvertArgs = ["ctx", "sender.Bytes()", "feeCoin", "fxTarget"] := by decide
 
 /-- `refund_exact` for one record settled by refund, statements run in source order (every state, every record): the
 refund address gets exactly the record's amounts; as ERC-20 iff the record was NOT marked from-message when the settlement
